@@ -144,3 +144,35 @@ Theorem andersoncd_working_set_covers_support_and_unpenalised :
   (count_true (map2b orb (map negb pen) gs) <= ws_size)%Z /\ (ws_size <= p)%Z.
 Proof. exact ws_size_covers_forced. Qed.
 Print Assumptions andersoncd_working_set_covers_support_and_unpenalised.
+
+(* ---------------------------------------------------------------- Anderson extrapolation ------------------- *)
+Require Import SK.Skel.Anderson SK.Lemmas.Affine SK.Skel.GramCDAnderson.
+(* model of AndersonAcceleration.extrapolate (tied to the real class by executed correspondence): when the stored pairs and
+   the pair handed in satisfy Xw = X w + c, so does the extrapolated pair -- WHATEVER np.linalg.solve returns (the
+   coefficients are normalised to sum to one) *)
+Theorem anderson_extrapolation_keeps_consistency :
+  forall (K : nat) (solve_z : list (list R) -> option (list R)) (n : nat) (X : list (list R)) (c : list R),
+  wf_X n X -> length c = n ->
+  (forall U z, solve_z U = Some z -> length z = length U /\ z <> nil) ->
+  forall st w Xw w' Xw' ext st',
+  AAI n X c st -> Cons n X w c Xw -> length w = length X ->
+  aa_step K solve_z st w Xw = Ok (w', Xw', ext, st') ->
+  AAI n X c st' /\ (ext = true -> Cons n X w' c Xw' /\ length w' = length X).
+Proof. exact aa_step_consistent. Qed.
+Print Assumptions anderson_extrapolation_keeps_consistency.
+
+(* GramCD with the modelled accelerator inside: the certificate holds with NO hypothesis on the accelerator *)
+Theorem gramcd_certificate_with_modelled_anderson :
+  forall (score : list R -> list R -> list Z -> res (list (Ext R))) (prox : R -> R -> Z -> res R) (value : list R -> res (Ext R))
+    (greedy : bool) (cfg : @gconfig R) (D : @gdata R) (K : nat) (solve_z : list (list R) -> option (list R)),
+  let p := length (gd_q D) in let negq := map Ropp (gd_q D) in
+  wf_X p (gd_Q D) -> length (gd_Q D) = p ->
+  (forall U z, solve_z U = Some z -> length z = length U /\ z <> nil) ->
+  forall w_init out, match w_init with Some w => length w = p | None => True end ->
+  gsolve cfg (gram_kernels score prox value greedy D (@aa_init R) (aa_step K solve_z)) D w_init = Ok out ->
+  ele (g_stop out) (gc_tol cfg) = true ->
+  let w := gs_w (g_s out) in let g := gs_grad (g_s out) in
+  Cons p (gd_Q D) w negq g /\ length w = p /\
+  exists opt, score w g (zrange 0 (zlen w)) = Ok opt /\ emax_list opt = Ok (g_stop out).
+Proof. exact gram_certificate_with_anderson. Qed.
+Print Assumptions gramcd_certificate_with_modelled_anderson.
